@@ -27,14 +27,30 @@ def compositions(n):
         yield [(cuts[i], cuts[i + 1]) for i in range(len(cuts) - 1)]
 
 
+class _NotJudged(Exception):
+    pass
+
+
+def prefix_mode_parses(grammar, pieces):
+    """complete-flagged parses after the last fragment in prefix mode; a RecursionError of the parser (deeply nested partial
+    trees of recursive grammars) is not judged here, any other exception is part of the compared result"""
+    from fandango.language.grammar.parser.iterative_parser import IterativeParser
+    try:
+        return complete_parses(IterativeParser(grammar.rules), "<start>", pieces, "incomplete")
+    except RecursionError:
+        raise _NotJudged()
+    except Exception as e:          # noqa: BLE001
+        return ["raises " + type(e).__name__]
+
+
 def tree_key(parser, tree):
     c = parser.collapse(tree)
     return c.to_tree() if c is not None else "None"
 
 
-def complete_parses(parser, grammar_start, pieces):
+def complete_parses(parser, grammar_start, pieces, mode="complete"):
     from fandango.language.grammar import ParsingMode
-    parser.new_parse(grammar_start, ParsingMode.COMPLETE)
+    parser.new_parse(grammar_start, ParsingMode.COMPLETE if mode == "complete" else ParsingMode.INCOMPLETE)
     last = []
     for k, piece in enumerate(pieces):
         got = list(parser.consume(piece))
@@ -73,6 +89,11 @@ def run(tier="quick", seed=0, pid="C13"):
             if to:
                 timeouts += 1
                 continue
+            # the same in prefix (INCOMPLETE) mode, where consume() also reports partial trees: only the trees flagged complete count
+            try:
+                whole_inc, to_inc = with_budget(lambda: prefix_mode_parses(grammar, [w]))
+            except _NotJudged:
+                whole_inc, to_inc = None, True
             for comp in compositions(len(w)):
                 if len(comp) == 1:
                     continue
@@ -90,6 +111,22 @@ def run(tier="quick", seed=0, pid="C13"):
                         "name": f"bounded:fragmentation_independent:{name}", "witness": f"spec={name};kind=complete_parses_differ",
                         "detail": f"word {w!r} cut as {pieces!r}: {len(got)} complete parses, {len(whole)} when consumed at once",
                         "script": replay_script(name, w, pieces)})
+                if to_inc or not (len(comp) == 2 or len(comp) == len(w)):
+                    continue            # prefix mode: every single cut, and unit by unit
+                evaluations += 1
+                try:
+                    got_inc, to = with_budget(lambda: prefix_mode_parses(grammar, pieces))
+                except _NotJudged:
+                    continue
+                if to:
+                    timeouts += 1
+                    continue
+                if got_inc != whole_inc and (name, "parses_inc") not in reported:
+                    reported.add((name, "parses_inc"))
+                    violations.append({
+                        "name": f"bounded:fragmentation_independent:{name}", "witness": f"spec={name};kind=complete_parses_differ_in_prefix_mode",
+                        "detail": f"prefix mode: word {w!r} cut as {pieces!r}: {len(got_inc)} complete parses, {len(whole_inc)} when consumed at once",
+                        "script": replay_script(name, w, pieces, "incomplete")})
             if len(samples) < 8:
                 samples.append({"spec": name, "word": repr(w), "compositions": 2 ** (len(w) - 1) - 1, "complete_parses": len(whole)})
             # can_continue after every proper prefix (of words of the language)
@@ -118,15 +155,16 @@ def run(tier="quick", seed=0, pid="C13"):
                             "script": replay_script(name, w, [u, w[cut:]])})
     return {
         "evaluations": evaluations, "distinct_nontrivial": len(distinct),
-        "rule": (f"every spec of the family (no generators) x up to {words_per_spec} words (1..{MAX_LEN} characters/bytes) of its independently "
-                 "enumerated language x ALL compositions into non-empty fragments, plus can_continue() after every proper prefix; "
+        "rule": (f"complete mode: every spec of the family (no generators) x up to {words_per_spec} words (1..{MAX_LEN} characters/bytes) of its independently "
+                 "enumerated language x ALL compositions into non-empty fragments, plus can_continue() after every proper prefix; prefix (INCOMPLETE) "
+                 "mode: the same words, every single cut and unit-by-unit feeding, comparing the parses flagged complete; "
                  "distinct = distinct (spec, word, composition); all are non-trivial (>= 2 fragments)"),
         "bound": f"words up to {MAX_LEN} units, {words_per_spec} words per spec, 26 specs", "exhaustive": False,
         "samples": samples, "violations": violations, "consume_timeouts_not_judged": timeouts, "wall_s": round(time.time() - t0, 1),
     }
 
 
-def replay_script(name, word, pieces):
+def replay_script(name, word, pieces, mode="complete"):
     import os
     return f'''#!/usr/bin/env python3
 """C13 witness: spec {name!r}, word {word!r}, fragments {pieces!r}.  Exit 1 = reproduced."""
@@ -134,23 +172,30 @@ import os, sys
 sys.path.insert(0, {os.path.dirname(os.path.dirname(os.path.abspath(__file__)))!r})
 os.environ.setdefault("VERIF_REPO", "/repo")
 from bounded import c13
-sys.exit(c13.replay({name!r}, {word!r}, {pieces!r}))
+sys.exit(c13.replay({name!r}, {word!r}, {pieces!r}, {mode!r}))
 '''
 
 
-def replay(name, word, pieces):
+def replay(name, word, pieces, mode="complete"):
     from fandango.language.grammar.parser.iterative_parser import IterativeParser
     from fandango.language.grammar import ParsingMode
     grammar, _ = family.load(name)
-    whole = complete_parses(IterativeParser(grammar.rules), "<start>", [word])
-    got = complete_parses(IterativeParser(grammar.rules), "<start>", pieces)
+    if mode == "complete":
+        whole = complete_parses(IterativeParser(grammar.rules), "<start>", [word], mode)
+        got = complete_parses(IterativeParser(grammar.rules), "<start>", pieces, mode)
+    else:
+        try:
+            whole, got = prefix_mode_parses(grammar, [word]), prefix_mode_parses(grammar, pieces)
+        except _NotJudged:
+            print("not judged (RecursionError in the parser)")
+            return 0
     print("spec:\n" + family.SPECS[name])
     print("whole:", len(whole), "fragmented", pieces, ":", len(got))
     bad = got != whole
     p = IterativeParser(grammar.rules)
     p.new_parse("<start>", ParsingMode.COMPLETE)
     list(p.consume(pieces[0]))
-    if not p.can_continue() and len(pieces) > 1 and whole:
+    if mode == "complete" and not p.can_continue() and len(pieces) > 1 and whole:
         print("can_continue() is False after", repr(pieces[0]), "although", repr(word), "is in the language")
         bad = True
     if bad:
